@@ -140,6 +140,8 @@ def fixed_scripts(quick=True):
     s.append({"c": "string", "ops": [["chars", 1, 0, [], 97, 300, 0], ["chars", 1, 0, [], 98, 150, 0], ["fmts", 1, 0, [], 0, 1, 0],
                                      ["str", 1, 0, k, 0, 0, 0]]})                                              # remaining < 128: buffered path
     s.append({"c": "string", "ops": [["fmts", 3, 0, [], 1, 1, 0], ["fmts", 3, 0, k, 0, 0, 0], ["truncate", 3, 0, [], 10, 0, 0]]})
+    # ArenaString<16>::set_data for every length around the embedded / external boundary
+    s.append({"c": "string", "ops": [["astr", 1, 0, [97 + (i % 26) for i in range(n)], 0, 0, 0] for n in range(1, 41)]})
     # formatted append / assign that needs a bigger buffer while the heap refuses it
     s.append({"c": "string", "ops": [["chars", 1, 0, [], 97, 300, 0], ["fmts", 1, 0, k, 0, 0, 0, [0, 0, 0, 0], "", "d", 1], ["char", 1, 0, [], 98, 0, 0]]})
     s.append({"c": "string", "ops": [["chars", 2, 0, [], 97, 300, 0], ["fmts", 2, 1, k + k, 3, 0, 0, [0, 0, 0, 0], "", "d", 1], ["char", 2, 0, [], 98, 0, 0]]})
